@@ -340,6 +340,12 @@ static void finish_slot(int s, int status, int timedout)
 	if (r->maxthreads > st_maxthreads) st_maxthreads = r->maxthreads;
 	if (r->npoints > st_maxpoints) st_maxpoints = r->npoints;
 	outcome_add(r->outcome_hash ^ ((uint64_t)cls << 60));
+	if (getenv("VX_DUMP_EXEC")) {   // debugging aid: one line per execution with its event log
+		char pre[1024]; prefix_to_str(w, pre, sizeof pre);
+		fprintf(stderr, "EXEC cost=%d prefix=[%s] :", w->cost, pre);
+		for (uint32_t i = 0; i < r->log.n; i++) fprintf(stderr, " T%u/%u:%d:%lld", r->log.ev[i].thread, r->log.ev[i].kind, r->log.ev[i].id, (long long)r->log.ev[i].arg);
+		fprintf(stderr, "\n");
+	}
 
 	if (g_nsamples < 3 && (st_exec == 1 || w->cost == g_K || st_exec % 97 == 0)) {
 		char pre[1024]; prefix_to_str(w, pre, sizeof pre);
